@@ -13,12 +13,12 @@ def classify(case_line):
 CFG = dict(
     imports=["From Verif.C42 Require Import Model Spec."],
     checker="check_case",
-    n=dict(quick=120, thorough=3000),
+    n=dict(quick=100, thorough=3000),
     shard=30,
     classify=classify,
     rule="histories of 3-8 Syncer.Apply calls on the real bpf/proxy.Syncer over recording in-memory NAT maps: 1-6 services "
          "(cluster IP, 0-2 external IPs, 0-2 load-balancer IPs, node port on 1-2 node-port addresses incl. the 255.255.255.255 "
-         "meta address, external/internal traffic policy, session affinity, TCP/UDP) with 0-6 endpoints (ready / not ready / "
+         "meta address, external/internal traffic policy, session affinity, TCP/UDP; a third of the histories with the maglev annotation) with 0-6 endpoints (ready / not ready / "
          "terminating, local or on one of 3 remote nodes); between applies services are added, removed or changed and endpoints "
          "added, removed or change state; an apply may have write failures (a hash predicate on the key, or every write after "
          "the n-th) and may be followed by a restart (new Syncer over the same maps); 2 scripted histories first. "
@@ -31,8 +31,9 @@ CFG = dict(
     assumptions=["IPv4, no loadBalancerSourceRanges (black-hole frontends), no topology hints, no excluded CIDRs, service is not default/kubernetes",
                  "fewer than 2^32 service ids are allocated (uint32 wrap of nextSvcID not modelled)",
                  "a failed map write leaves the map unchanged; nothing but the Syncer writes the maps while it runs",
-                 "Maglev LUT map: checked only at the end of a completed sync (complete table over ready endpoints, no stale table); not modelled mid-update",
-                 "affinity map cleanup not modelled"],
+                 "Maglev LUT map (partial): checked only at the end of a completed sync on the implementation's map (complete table of lutSize entries over the service's ready endpoints, no table for an id without maglev frontend); its contents and its mid-update states are not modelled",
+                 "affinity map cleanup not modelled",
+                 "final_exact oracle: ExternalIP frontends and per-remote-node node-port frontends are not required to carry a local-only flag (the code never sets one on ExternalIP frontends)"],
 )
 
 
